@@ -60,6 +60,17 @@ theorem trNested_same (s : Stmt) : ∀ (te : C.TyEnv) (m : Bool) (d : Nat) (s' :
   | write e => intro te m d s' h; rw [trNested] at h; cases h; exact ⟨rfl, rfl⟩
   | sleep e => intro te m d s' h; rw [trNested] at h; cases h; exact ⟨rfl, rfl⟩
   | brk => intro te m d s' h; rw [trNested] at h; split at h <;> cases h; exact ⟨rfl, rfl⟩
+  | call y g ps ls rt body ret args _ =>
+    intro te m d s' h
+    rw [trNested] at h
+    split at h
+    · split at h
+      · cases h
+      · obtain ⟨b', _, h⟩ := bind_ok h
+        split at h
+        · cases h; exact ⟨rfl, rfl⟩
+        · cases h
+    · cases h
 
 theorem trBody2_same (s : Stmt) : ∀ (te : C.TyEnv) (r : Stmt × C.TyEnv), trBody2 te s = .ok r → Same s r.1 := by
   induction s with
@@ -317,7 +328,9 @@ theorem numbered_declsOk (s : Stmt) : ∀ k, s.numberedFrom k = true → forOk s
 theorem tr2_decls (p : Prog) (c : CProg) (ht : tr2 p = .ok c) (hpre : forOk p.pre = true)
     (hbody : ∀ b, p.body = some b → forOk b = true) :
     declsOk c.setup = true ∧ (blockDecls c.setup).Nodup ∧ declsOk c.loop = true ∧ (blockDecls c.loop).Nodup := by
-  obtain ⟨hnum, ht⟩ := tr2_ok ht
+  obtain ⟨hnum, c0, hs0, ht0, rfl⟩ := tr2_ok ht
+  clear ht
+  have ht := ht0
   unfold tr2Core at ht
   obtain ⟨acc, hacc, ht⟩ := bind_ok ht
   simp only [Prog.numbered, Bool.and_eq_true] at hnum
